@@ -303,6 +303,10 @@ impl crate::timing::TimestampProvider for NoClock {
 /// Scenario `VERIF_LOOM_SCENARIO=ids,<actors>,<script>`: actors is a string over `o` (local
 /// open), `b` (local bind request) and `p<id>` (peer `Connect` with that id, e.g. `p7`), script a
 /// `+`-separated list of the values the generator yields first (`0` included on purpose).
+/// `k`: before the threads start, one local open is made (it takes the first scripted id) and
+/// is left pending; the `k` thread is the connection task handling the peer's `Acknowledge` for
+/// it (`Task::ack_recv_new_stream`), i.e. a request turning into an established stream while
+/// other threads draw ids.
 ///
 /// Oracles, after every thread has been joined:
 ///  (a) every id handed to a local request is non-zero and no two local requests share one;
@@ -330,6 +334,7 @@ fn verif_loom_flow_ids() {
         Open,
         Bind,
         Peer(u32),
+        AckOwn,
     }
     let mut actors = Vec::new();
     let mut chars = actors_raw.chars().peekable();
@@ -337,6 +342,7 @@ fn verif_loom_flow_ids() {
         match c {
             'o' => actors.push(Actor::Open),
             'b' => actors.push(Actor::Bind),
+            'k' => actors.push(Actor::AckOwn),
             'p' => {
                 let mut n = 0u32;
                 while let Some(d) = chars.peek().and_then(|d| d.to_digit(10)) {
@@ -371,7 +377,16 @@ fn verif_loom_flow_ids() {
             Open(u32, tokio::sync::oneshot::Receiver<Option<MuxStream>>),
             Bind(u32, tokio::sync::oneshot::Receiver<bool>),
             Peer(u32),
+            Acked(u32),
         }
+        // the request that the `k` thread will see acknowledged
+        let pre = if actors.contains(&Actor::AckOwn) {
+            let (tx, rx) = tokio::sync::oneshot::channel();
+            Some((mux.insert_new_flow(crate::FlowSlot::Requested(tx)), rx))
+        } else {
+            None
+        };
+        let pre_id = pre.as_ref().map(|p| p.0);
         let mut handles = Vec::new();
         for a in actors.iter().copied() {
             let mux = mux.clone();
@@ -390,6 +405,12 @@ fn verif_loom_flow_ids() {
                     loom::future::block_on(task.verif_process_frame(frame))
                         .expect("the task failed on a `Connect` frame");
                     Done::Peer(id)
+                }
+                Actor::AckOwn => {
+                    let id = pre_id.expect("no pending request to acknowledge");
+                    loom::future::block_on(task.verif_process_frame(Frame::new_acknowledge(id, 8)))
+                        .expect("the task failed on the `Acknowledge` of a pending request");
+                    Done::Acked(id)
                 }
             }));
         }
@@ -411,6 +432,10 @@ fn verif_loom_flow_ids() {
         let flows = mux.flows.read();
         let mut local_ids = Vec::new();
         let mut expected_len = 0usize;
+        if let Some(id) = pre_id {
+            assert!(id != 0, "[{raw}] FLOWID: a local request was given flow id 0");
+            local_ids.push(id);
+        }
         for d in &done {
             match d {
                 Done::Open(id, _) | Done::Bind(id, _) => {
@@ -432,6 +457,13 @@ fn verif_loom_flow_ids() {
                     );
                 }
                 Done::Peer(_) => {}
+                Done::Acked(id) => {
+                    expected_len += 1;
+                    assert!(
+                        matches!(flows.get(id), Some(crate::FlowSlot::Established(_))),
+                        "[{raw}] FLOWID: the peer acknowledged the local request with id {id} but the map holds no established flow under it"
+                    );
+                }
             }
         }
         let mut accepted = 0usize;
@@ -473,6 +505,14 @@ fn verif_loom_flow_ids() {
             }
         }
         assert_eq!(queued, accepted, "[{raw}] FLOWID: {accepted} Connects acknowledged, {queued} streams in the accept queue");
+        if let Some((id, mut rx)) = pre {
+            if done.iter().any(|d| matches!(d, Done::Acked(_))) {
+                assert!(
+                    matches!(rx.try_recv(), Ok(Some(_))),
+                    "[{raw}] FLOWID: the acknowledged request with id {id} was not given its stream"
+                );
+            }
+        }
         // Leave without running the (irrelevant here) drop protocols against half a connection
         drop(done);
         drop(dropped_flows_rx);
